@@ -1,6 +1,7 @@
 import HailVerif.Model.ExprTyping
 import HailVerif.Model.PyImpute
 import HailVerif.Model.TableType
+import HailVerif.Model.MatrixType
 import HailVerif.Model.ExprIRRead
 import HailVerif.Model.DriverUtil
 open HailVerif HailVerif.DriverUtil HailVerif.ExprIR HailVerif.ExprIR.Read HailVerif.PyImpute
@@ -14,6 +15,9 @@ Lines (fields separated by ` ||| `):
   `explode a`; answer `g=<globals struct> r=<row struct> k=<key fields>` or `none` (the front end refuses a call)
 * `tunion-reported ||| <unify 0/1> ||| pipeline ||| pipeline …` — the type `t0.union(t1, …, unify=…)` reports; `tunion-ir ||| …` — the
   type the emitted `TableUnion` implies (`ill-typed` when its children disagree); `tjoin ||| pipeline ||| pipeline` — `l.join(r)`
+* `matrix ||| <view: matrix|rows|cols|entries> ||| op ; op …` — the MatrixTable type after the calls from `range_matrix_table`
+  (`annotate rows x=T&y=U`, `select cols a,b|z=T`, `drop a,b`, `key_cols_by [a,b]`, `key_rows_by [a,b]`, `filter rows`), seen as a matrix
+  table or through `.rows()` / `.cols()` / `.entries()`; `munion ||| view ||| left ||| right ||| post` — `left.union_cols(right)` then `post`
 * `check ||| <type> ||| <python value>` — `checkPy` of a value against a given type (the type the real `hl.literal` reported)
 Python values: `(none) (b 1) (i 5) (f 2) (s "x") (list v…) (tuple v…) (set v…) (dict (k v)…) (struct (name v)…)`.
 -/
@@ -116,6 +120,47 @@ def runBranches (bs : List String) : Except String (Option (List TType)) := do
   let rs ← bs.mapM runOps
   pure (rs.mapM id)
 
+open HailVerif.MatrixType in
+def readAxis : String → Option Axis
+  | "rows" => some .rows | "cols" => some .cols | "entries" => some .entries | "globals" => some .globals
+  | _ => none
+
+open HailVerif.MatrixType in
+def applyMOp (m : MType) (op : String) : Except String (Option MType) :=
+  match (op.trimAscii.toString.splitOn " ") with
+  | ["annotate", ax, a] => match readAxis ax with
+    | some x => do pure (MatrixType.annotate m x (← readNamed a))
+    | none => .error "axis"
+  | ["select", ax, a] => match readAxis ax, a.splitOn "|" with
+    | some x, [keep, named] => do pure (MatrixType.select m x (namesOf keep) (← readNamed named))
+    | _, _ => .error "select"
+  | ["drop", a] => .ok (MatrixType.drop m (namesOf a))
+  | ["key_cols_by", a] => .ok (keyColsBy m (namesOf a))
+  | ["key_cols_by"] => .ok (keyColsBy m [])
+  | ["key_rows_by", a] => .ok (keyRowsBy m (namesOf a))
+  | ["key_rows_by"] => .ok (keyRowsBy m [])
+  | ["filter", _] => .ok (some (MatrixType.filter m))
+  | _ => .error s!"matrix op {op}"
+
+open HailVerif.MatrixType in
+def runMOps (start : MType) (txt : String) : Except String (Option MType) :=
+  let ops := ((txt.splitOn ";").map (·.trimAscii.toString)).filter (fun o => o != "range" && o != "")
+  let rec go (m : MType) : List String → Except String (Option MType)
+    | [] => .ok (some m)
+    | op :: r => match applyMOp m op with
+      | .ok (some m') => go m' r
+      | .ok none => .ok none
+      | .error e => .error e
+  go start ops
+
+open HailVerif.MatrixType in
+def showMT (view : String) (m : MType) : String :=
+  match view with
+  | "rows" => showTT (rowsTable m)
+  | "cols" => showTT (colsTable m)
+  | "entries" => showTT (entriesTable m)
+  | _ => s!"g={showType (.struct (fieldsOfList m.globals))} c={showType (.struct (fieldsOfList m.col))} ck={",".intercalate m.colKey} r={showType (.struct (fieldsOfList m.row))} rk={",".intercalate m.rowKey} e={showType (.struct (fieldsOfList m.entry))}"
+
 def handle (line : String) : String :=
   match line.splitOn " ||| " with
   | ["infer", ctx, t] =>
@@ -159,6 +204,22 @@ def handle (line : String) : String :=
       | none => "none"
     | .ok _ => "none"
     | .error e => s!"parse-error {e}"
+  | ["matrix", view, ops] =>
+    match runMOps MatrixType.range ops with
+    | .ok (some m) => showMT view m
+    | .ok none => "none"
+    | .error e => s!"parse-error {e}"
+  | ["munion", view, l, r, post] =>
+    match runMOps MatrixType.range l, runMOps MatrixType.range r with
+    | .ok (some ml), .ok (some mr) => match MatrixType.unionCols ml mr with
+      | some m => match runMOps m post with
+        | .ok (some m') => showMT view m'
+        | .ok none => "none"
+        | .error e => s!"parse-error {e}"
+      | none => "none"
+    | .error e, _ => s!"parse-error {e}"
+    | _, .error e => s!"parse-error {e}"
+    | _, _ => "none"
   | ["echo", t] => t
   | _ => "bad-op"
 
